@@ -163,4 +163,143 @@ theorem no_infinite_run {step : St → Tid → Ev → Option St} {Good : St → 
   simp only [L] at hb
   omega
 
+/-! ## Two-level (lexicographic) form
+
+For components in which the remaining work of a thread is fixed only once it has taken the lock (a scan
+over a map other threads may still enlarge): a first-level rank `α` (e.g. "has not taken the lock yet")
+that no library step raises, and a second-level rank `μ` that strictly decreases whenever the stepping
+thread's `α` stays the same.  When `α` of the stepping thread decreases, `μ` may change arbitrarily.  No
+linear bound on the length exists in this setting, but there is still no infinite execution. -/
+
+/-- no infinite sequence descends lexicographically in `Nat × Nat` -/
+theorem no_lex_descent (a b : Nat → Nat)
+    (h : ∀ n, a (n + 1) < a n ∨ (a (n + 1) ≤ a n ∧ b (n + 1) < b n)) : False := by
+  have key : ∀ A B n, a n ≤ A → b n ≤ B → False := by
+    intro A
+    induction A with
+    | zero =>
+      intro B
+      induction B with
+      | zero => intro n ha hb; rcases h n with h1 | ⟨_, h2⟩ <;> omega
+      | succ B ihB =>
+        intro n ha hb
+        rcases h n with h1 | ⟨h1, h2⟩
+        · omega
+        · exact ihB (n + 1) (by omega) (by omega)
+    | succ A ihA =>
+      intro B
+      induction B with
+      | zero =>
+        intro n ha hb
+        rcases h n with h1 | ⟨_, h2⟩
+        · exact ihA (b (n + 1)) (n + 1) (by omega) (Nat.le_refl _)
+        · omega
+      | succ B ihB =>
+        intro n ha hb
+        rcases h n with h1 | ⟨h1, h2⟩
+        · exact ihA (b (n + 1)) (n + 1) (by omega) (Nat.le_refl _)
+        · exact ihB (n + 1) (by omega) (by omega)
+  exact key (a 0) (b 0) 0 (Nat.le_refl _) (Nat.le_refl _)
+
+structure RankedLex (step : St → Tid → Ev → Option St) (Good : St → Prop) (isEnv : Ev → Bool)
+    (α μ : St → Tid → Nat) : Prop where
+  good : ∀ s t e s', Good s → step s t e = some s' → isEnv e = false → Good s'
+  dec : ∀ s t e s', Good s → step s t e = some s' → isEnv e = false →
+    α s' t < α s t ∨ (α s' t = α s t ∧ μ s' t < μ s t ∧ ∀ u, u ≠ t → μ s' u ≤ μ s u)
+  frame : ∀ s t e s' u, Good s → step s t e = some s' → isEnv e = false → u ≠ t → α s' u ≤ α s u
+
+/-- **No infinite execution with finitely many environment events**, lexicographic form -/
+theorem no_infinite_run_lex {step : St → Tid → Ev → Option St} {Good : St → Prop} {isEnv : Ev → Bool}
+    {α μ : St → Tid → Nat} (R : RankedLex step Good isEnv α μ)
+    (ts : List Tid) (hnd : ts.Nodup) (x : Exec step) (N : Nat) (hg : Good (x.σ N))
+    (hts : ∀ n, N ≤ n → x.who n ∈ ts) (hnc : ∀ n, N ≤ n → isEnv (x.ev n) = false) : False := by
+  have hgood : ∀ k, Good (x.σ (N + k)) := by
+    intro k
+    induction k with
+    | zero => exact hg
+    | succ k ih => exact R.good _ _ _ _ ih (x.ok (N + k)) (hnc _ (by omega))
+  apply no_lex_descent (fun k => total α ts (x.σ (N + k))) (fun k => total μ ts (x.σ (N + k)))
+  intro k
+  have hstep := x.ok (N + k)
+  have hne := hnc (N + k) (by omega)
+  have hmem := hts (N + k) (by omega)
+  have hA := total_step α ts hnd _ _ _ hmem (fun u hu => R.frame _ _ _ _ u (hgood k) hstep hne hu)
+  show total α ts (x.σ (N + (k + 1))) < _ ∨ (total α ts (x.σ (N + (k + 1))) ≤ _ ∧ total μ ts (x.σ (N + (k + 1))) < _)
+  rw [show N + (k + 1) = N + k + 1 by omega]
+  rcases R.dec _ _ _ _ (hgood k) hstep hne with h1 | ⟨h1, h2, h3⟩
+  · left; omega
+  · right
+    have hM := total_step μ ts hnd _ _ _ hmem h3
+    constructor <;> omega
+
+/-! ## Form with a shared potential
+
+For components in which work is handed over through a shared container (an element pushed by one thread is
+processed later by another): a global potential `G` (e.g. a constant times the size of the container) plus
+the per-thread ranks.  Every library step of `t` strictly lowers `G + μ · t` and does not raise the rank of
+another thread. -/
+
+structure RankedG (step : St → Tid → Ev → Option St) (Good : St → Prop) (isEnv : Ev → Bool)
+    (G : St → Nat) (μ : St → Tid → Nat) : Prop where
+  good : ∀ s t e s', Good s → step s t e = some s' → isEnv e = false → Good s'
+  dec : ∀ s t e s', Good s → step s t e = some s' → isEnv e = false → G s' + μ s' t < G s + μ s t
+  frame : ∀ s t e s' u, Good s → step s t e = some s' → isEnv e = false → u ≠ t → μ s' u ≤ μ s u
+
+/-- **No infinite execution with finitely many environment events**, shared-potential form -/
+theorem no_infinite_runG {step : St → Tid → Ev → Option St} {Good : St → Prop} {isEnv : Ev → Bool}
+    {G : St → Nat} {μ : St → Tid → Nat} (R : RankedG step Good isEnv G μ)
+    (ts : List Tid) (hnd : ts.Nodup) (x : Exec step) (N : Nat) (hg : Good (x.σ N))
+    (hts : ∀ n, N ≤ n → x.who n ∈ ts) (hnc : ∀ n, N ≤ n → isEnv (x.ev n) = false) : False := by
+  have hgood : ∀ k, Good (x.σ (N + k)) := by
+    intro k
+    induction k with
+    | zero => exact hg
+    | succ k ih => exact R.good _ _ _ _ ih (x.ok (N + k)) (hnc _ (by omega))
+  apply no_lex_descent (fun k => G (x.σ (N + k)) + total μ ts (x.σ (N + k))) (fun _ => 0)
+  intro k
+  left
+  have hstep := x.ok (N + k)
+  have hne := hnc (N + k) (by omega)
+  have hmem := hts (N + k) (by omega)
+  have hT := total_step μ ts hnd _ _ _ hmem (fun u hu => R.frame _ _ _ _ u (hgood k) hstep hne hu)
+  have hd := R.dec _ _ _ _ (hgood k) hstep hne
+  show G (x.σ (N + (k + 1))) + total μ ts (x.σ (N + (k + 1))) < _
+  rw [show N + (k + 1) = N + k + 1 by omega]
+  omega
+
+/-! ## Relational form
+
+For components whose model lets a thread repeat idle steps at will (a spin loop whose exit depends on other
+threads, redundant loads of a weakest-discipline model): the steps that must lower the rank are described by a
+relation `Lib s t e s'` (e.g. "not an environment event and the thread's pc changes"); nothing is required of
+the other steps.  An execution all of whose steps from some point on are `Lib` steps cannot be infinite. -/
+
+structure RankedRel (step : St → Tid → Ev → Option St) (Good : St → Prop)
+    (Lib : St → Tid → Ev → St → Prop) (μ : St → Tid → Nat) : Prop where
+  good : ∀ s t e s', Good s → step s t e = some s' → Lib s t e s' → Good s'
+  dec : ∀ s t e s', Good s → step s t e = some s' → Lib s t e s' → μ s' t < μ s t
+  frame : ∀ s t e s' u, Good s → step s t e = some s' → Lib s t e s' → u ≠ t → μ s' u ≤ μ s u
+
+theorem no_infinite_run_rel {step : St → Tid → Ev → Option St} {Good : St → Prop}
+    {Lib : St → Tid → Ev → St → Prop} {μ : St → Tid → Nat} (R : RankedRel step Good Lib μ)
+    (ts : List Tid) (hnd : ts.Nodup) (x : Exec step) (N : Nat) (hg : Good (x.σ N))
+    (hts : ∀ n, N ≤ n → x.who n ∈ ts)
+    (hlib : ∀ n, N ≤ n → Lib (x.σ n) (x.who n) (x.ev n) (x.σ (n + 1))) : False := by
+  have hgood : ∀ k, Good (x.σ (N + k)) := by
+    intro k
+    induction k with
+    | zero => exact hg
+    | succ k ih => exact R.good _ _ _ _ ih (x.ok (N + k)) (hlib _ (by omega))
+  apply no_lex_descent (fun k => total μ ts (x.σ (N + k))) (fun _ => 0)
+  intro k
+  left
+  have hstep := x.ok (N + k)
+  have hl := hlib (N + k) (by omega)
+  have hmem := hts (N + k) (by omega)
+  have hT := total_step μ ts hnd _ _ _ hmem (fun u hu => R.frame _ _ _ _ u (hgood k) hstep hl hu)
+  have hd := R.dec _ _ _ _ (hgood k) hstep hl
+  show total μ ts (x.σ (N + (k + 1))) < _
+  rw [show N + (k + 1) = N + k + 1 by omega]
+  omega
+
 end ConcVerif.Live
